@@ -23,3 +23,12 @@ add("C01", "exploration",
     "detector amplifies), not enumerated.",
     "The Go scheduler of the binaries is not controlled; concurrency is perturbed through generated latencies/offsets/GOMAXPROCS only.",
     "property-based testing (rapid): generated concurrent request sets, token/nonce correlation oracle + race detector", "3/C01")
+add("C04", "exploration",
+    "Agent part: generated histories of pending-list replies (repeats, permutations, overlapping subsets, full re-listing as the App "
+    "Engine proxy does, 999/1000-ID boundary cases) with generated gaps and fetch/upload/backend delays are served by a fake proxy to the "
+    "real agent binary; a counting backend and the upload log give invocations per ID (must be exactly 1 for every listed ID). Server "
+    "part: 1-16 concurrent harness pollers against the real stand-alone proxy while clients arrive; the multiset of listed IDs must be "
+    "duplicate-free and complete, and resolve to distinct clients. Histories and schedules are sampled.",
+    "The 1000-entry window is taken from the property text; IDs of earlier cases still occupy the agent's LRU (they are older, so they "
+    "are evicted first). app/store's own listing is exercised by C19, not here.",
+    "property-based testing (rapid): generated list-reply histories against a counting model; concurrent pollers with a multiset oracle", "3/C04")
